@@ -364,7 +364,7 @@ func engineTotal(rep *Report) {
 				continue
 			}
 			setProgress(ti, i, 0)
-			totalCase(rep, s, d, i, uint64(S))
+			guardCase(rep, "C06", "total", tn, i, func() { totalCase(rep, s, d, i, uint64(S)) })
 		}
 	}
 	setProgress(-1, -1, 0)
